@@ -501,6 +501,22 @@ func (env Env) Compare(a *NF, tok token.Token, b *NF) Tri {
 		if a.Equal(b) {
 			d = Rng{new(big.Rat), new(big.Rat)}
 		}
+		// relational relaxation: bound trunc/round by linear forms and compare
+		// the linear difference (keeps the correlation between a and b)
+		aLo, aHi := env.relax(a)
+		bLo, bHi := env.relax(b)
+		if aHi != nil && bLo != nil {
+			r := env.RangeOf(&NF{Lin: aHi.Sub(*bLo)})
+			if r.Hi != nil && (d.Hi == nil || r.Hi.Cmp(d.Hi) < 0) {
+				d.Hi = r.Hi
+			}
+		}
+		if aLo != nil && bHi != nil {
+			r := env.RangeOf(&NF{Lin: aLo.Sub(*bHi)})
+			if r.Lo != nil && (d.Lo == nil || r.Lo.Cmp(d.Lo) > 0) {
+				d.Lo = r.Lo
+			}
+		}
 	}
 	neg := d.Hi != nil && d.Hi.Sign() < 0     // a < b surely
 	nonpos := d.Hi != nil && d.Hi.Sign() <= 0 // a <= b surely
@@ -552,4 +568,29 @@ func (env Env) Compare(a *NF, tok token.Token, b *NF) Tri {
 		}
 	}
 	return TriUnknown
+}
+
+// relax bounds a normal form by linear forms: lo <= n <= hi. For truncation
+// (toward zero) of a non-negative value: L-u < trunc(L) <= L (we return L-u,
+// sound as a non-strict bound); for rounding: L-u/2 <= round(L) <= L+u/2.
+func (env Env) relax(n *NF) (lo, hi *Lin) {
+	switch n.Mode {
+	case ModeNone:
+		l := n.Lin
+		return &l, &l
+	case ModeTrunc:
+		r := env.RangeOf(&NF{Lin: n.Lin})
+		if r.Lo == nil || r.Lo.Sign() < 0 {
+			return nil, nil
+		}
+		h := n.Lin
+		l := n.Lin.Sub(NewLin(n.Unit))
+		return &l, &h
+	case ModeRound:
+		half := new(big.Rat).Quo(n.Unit, big.NewRat(2, 1))
+		h := n.Lin.Add(NewLin(half))
+		l := n.Lin.Sub(NewLin(half))
+		return &l, &h
+	}
+	return nil, nil
 }
